@@ -114,3 +114,46 @@ func NullBoundaryAvgs(lo, hi uint64) []uint64 {
 	}
 	return out
 }
+
+// WindowWithHash returns 48 bytes whose window hash is exactly target: the first 44 bytes come from
+// seed, the last four are found by a meet-in-the-middle search over the table (two bytes each side).
+// Values such as 0xFFFFFFFF or 0 occur once in 2^32 positions of random data, so no generated input
+// ever holds them by chance; expressions like h%d == d-1 and their "equivalent" rewrites differ exactly
+// at such values.
+func WindowWithHash(target uint32, seed uint64) [Window]byte {
+	var w [Window]byte
+	for attempt := uint64(0); ; attempt++ {
+		s := seed + attempt*0x9e3779b97f4a7c15
+		for i := 0; i < Window-4; i++ {
+			s = s*6364136223846793005 + 1442695040888963407
+			w[i] = byte(s >> 56)
+		}
+		var fixed uint32
+		for i := 0; i < Window-4; i++ {
+			fixed ^= bits.RotateLeft32(buzTable[w[i]], Window-1-i)
+		}
+		need := target ^ fixed
+		left := make(map[uint32]uint16, 1<<16)
+		for a := 0; a < 256; a++ {
+			ra := bits.RotateLeft32(buzTable[a], 3)
+			for b := 0; b < 256; b++ {
+				left[ra^bits.RotateLeft32(buzTable[b], 2)] = uint16(a<<8 | b)
+			}
+		}
+		for c := 0; c < 256; c++ {
+			rc := bits.RotateLeft32(buzTable[c], 1)
+			for d := 0; d < 256; d++ {
+				if ab, ok := left[need^rc^buzTable[d]]; ok {
+					w[44], w[45], w[46], w[47] = byte(ab>>8), byte(ab), byte(c), byte(d)
+					if windowHash(w[:]) != target {
+						panic("ref.WindowWithHash: search result does not hash to the target")
+					}
+					return w
+				}
+			}
+		}
+	}
+}
+
+// WindowHash exposes the direct window hash (self-tests, classification of generated inputs).
+func WindowHash(w []byte) uint32 { return windowHash(w) }
